@@ -22,7 +22,10 @@ def gen_sharing():
         for path in sorted(glob.glob(os.path.join(X.REPO, crate, "src", "**", "*.rs"), recursive=True)):
             rel = os.path.relpath(path, X.REPO)
             if rel.endswith("verif_hooks.rs"):
-                continue
+                # the verification hook is skipped only while it is compiled out of normal builds
+                lib = X.strip_comments(X.read(crate + "/src/lib.rs"))
+                if re.search(r"#\[cfg\(paseto_rs_verif\)\]\s*pub\s+mod\s+verif_hooks\s*;", lib):
+                    continue
             src = X.strip_comments(open(path, encoding="utf-8").read())
             src = re.sub(r'"(?:[^"\\]|\\.)*"', '""', src)
             for m in re.finditer(MUT_TOKENS, src):
